@@ -10,8 +10,8 @@
    and the correspondence check reproduce).
    Specification (M.FeaturesSpec): [spec_step], written without reference to the order. *)
 From Coq Require Import List Arith Bool.
-From M Require Import Features FeaturesSpec FeaturesH.
-From P Require Import FeaturesP FeaturesHP.
+From M Require Import Features FeaturesSpec FeaturesH FeaturesDyn.
+From P Require Import FeaturesP FeaturesHP FeaturesDynP.
 Import ListNotations.
 
 (* Tags: is_<tag> answers True exactly for the state's tags (plus 'accepted', tag 0, when an
@@ -255,3 +255,76 @@ Theorem C19_volatile_refuted_nested :
     m_hooks (w_m w2 m) 1 = None.
 Proof. exists kf3_cfg, [(0, 0)], [(0, 1)], 0, 0. vm_compute. repeat split. Qed.
 Print Assumptions C19_volatile_refuted_nested.
+
+(* ------------------------------------------------------------------------------------
+   Machines whose transitions change while they run (M.FeaturesDyn: add_transition /
+   remove_transition(event, source=s) between the calls).  No mixin keeps a copy of the
+   table: every call is the step function over the table CURRENT at that call. *)
+
+(* without reconfigurations the dynamic run is the run of the theorems above *)
+Theorem C19_dyn_static : forall (c : fcfg) (h : list (fmodel * fevent)) (w : world),
+  drun c (c_trans c) w (only_triggers h) = frun c w h.
+Proof. exact drun_static. Qed.
+Print Assumptions C19_dyn_static.
+
+(* Error, per entry, against the current table ts: MachineError iff Error is among the
+   mixins and NO transition of ts leaves d NOW and d is not accepted — whatever the table
+   was at earlier entries of d. *)
+Theorem C19_error_iff_dynamic :
+  forall (c : fcfg) (ts : list ftrans) (w : world) (m : fmodel) (e : fevent) (t : ftrans) (d : fstate_id),
+  feat_nodup (c_order c) = true ->
+  first_cand ts e (m_state (w_m w m)) = Some t -> ft_dst t = Some d ->
+  (obs_res (dstep c ts w (OTrig m e)) = RExn EMachine <->
+   has_error (c_order c) && is_error_state (with_trans c ts) d = true) /\
+  obs_state m (dstep c ts w (OTrig m e)) = d.
+Proof. exact error_iff_dynamic. Qed.
+Print Assumptions C19_error_iff_dynamic.
+
+(* how the verdict moves with the table: add_transition from s makes s a non-dead-end,
+   remove_transition(e, source=s0) leaves exactly the other transitions *)
+Theorem C19_has_trigger_add : forall (c : fcfg) (ts : list ftrans) (t : ftrans) (s : fstate_id),
+  has_trigger (with_trans c (apply_op ts (OAdd t))) s =
+  has_trigger (with_trans c ts) s || Nat.eqb (ft_src t) s.
+Proof. exact has_trigger_add. Qed.
+Print Assumptions C19_has_trigger_add.
+
+Theorem C19_has_trigger_remove :
+  forall (c : fcfg) (ts : list ftrans) (e : fevent) (s0 s : fstate_id),
+  has_trigger (with_trans c (apply_op ts (ORemove e s0))) s =
+  existsb (fun t => negb (Nat.eqb (ft_event t) e && Nat.eqb (ft_src t) s0) && Nat.eqb (ft_src t) s) ts.
+Proof. exact has_trigger_remove. Qed.
+Print Assumptions C19_has_trigger_remove.
+
+(* whole dynamic histories, every order of the mixins, any number of models, any pre-existing
+   attributes: every call's result / exception and every model's state are those of the
+   specification evaluated on the table current at that call. *)
+Theorem C19_error_dynamic :
+  forall (c : fcfg) (ts : list ftrans) (h : list fop) (s0 : fstate_id)
+         (pre : fmodel -> fhook -> option nat) (k : nat) (m : fmodel),
+  feat_nodup (c_order c) = true ->
+  map (obs_rs m) (drun c ts (init_world_p s0 pre k) h) =
+  map (sobs_rs m) (spec_drun c ts (spec_init_p s0 pre k) h).
+Proof. exact drun_rs_init. Qed.
+Print Assumptions C19_error_dynamic.
+
+(* Known finding KF-C19-4: the callback traces of C19_retry_spec do NOT extend to dynamic
+   histories when Error precedes Retry.  @add_state_features(Error, Retry); A(0), D(1,
+   retries=1, on_enter 5, on_failure 9); go: A->D, again: D->D, back: D->A.  go, again, again
+   (on_failure: the counter of D is 2), back; remove again and back from D: D is a dead end;
+   go raises in Error.enter BEFORE Retry.enter resets the counter; add again: D->D; the first
+   self re-entry after this entry from A runs on_failure (stale counter) where the contract
+   ("starts counting afresh when entered from another state") promises the enter callbacks. *)
+Definition kf4_cfg : fcfg :=
+  mkCfg [FError; FRetry] [(0, fs_default); (1, mkFS [5] [] [] false 0 1 (Some 9))] [] false.
+Definition kf4_ts : list ftrans := [mkFT 0 0 (Some 1); mkFT 1 1 (Some 1); mkFT 2 1 (Some 0)].
+Definition kf4_hist : list fop :=
+  [OTrig 0 0; OTrig 0 1; OTrig 0 1; OTrig 0 2; ORemove 1 1; ORemove 2 1; OTrig 0 0;
+   OAdd (mkFT 1 1 (Some 1)); OTrig 0 1].
+Theorem C19_retry_refuted_dynamic :
+  exists (c : fcfg) (ts : list ftrans) (h : list fop),
+    feat_nodup (c_order c) = true /\
+    nth 6 (map obs_res (drun c ts (init_world 0) h)) RTrue = RExn EMachine /\
+    nth 8 (map obs_trace (drun c ts (init_world 0) h)) [] = [IFail 9 0 1] /\
+    nth 8 (map sobs_trace (spec_drun c ts (spec_init 0) h)) [] = [IEnter 5 0 1].
+Proof. exists kf4_cfg, kf4_ts, kf4_hist. vm_compute. repeat split. Qed.
+Print Assumptions C19_retry_refuted_dynamic.
